@@ -10,12 +10,13 @@ VERIF = tlc.VERIF
 def make_pool(rnd):
     """8 sources: accepted and rejected, covering the defaulted-NoneValue paths (no ORG, no operands, data only, PCR, expressions)"""
     pool = [README]
-    pool.append([" NOP \n", " RTS \n", " SWI \n"])                                   # no ORG, no operands, no labels
+    pool.append([" NOP \n", " RTS \n", " LDA #2+3\n", " LDX #$10*2\n", " SWI \n"])          # no ORG, no labels; constant expressions
     prog, _ = proggen.gen_program(rnd, 6, 14, faults=False)
     pool.append(Case(prog).lines)                                                   # random valid program (PCR, branches, data)
     bad = list(README)
-    bad[rnd.randrange(1, len(bad))] = " LDA #300 ; does not fit\n"
-    pool.append(bad)                                                                # rejected at translation
+    bad[rnd.randrange(1, len(bad))] = rnd.choice([" LDA #300 ; does not fit\n", " LDA #TAB_LEN+1\n", " LDX #$12345+1\n", " LDA #1+\n", " JMP [$10\n", " FCC /abc\n", " LDA ,Q\n",
+                                                  " BRA NOWHERE\n", " FCB 1,,2\n", " LDA #5/0\n", " LDX #K+*\n", " TFR A,X\n", " INCLUDE nosuch.asm\n", " PSHS Q\n", " LDA [,X+]\n"])
+    pool.append(bad)                                                                # rejected (parse or translation), in many different places
     pool.append(["L FCB 1,2,3\n", "L FDB 4\n"])                                      # duplicate label
     m = list(Case(proggen.gen_program(rnd, 5, 9, faults=False)[0]).lines)
     k = rnd.randrange(len(m))
@@ -49,6 +50,77 @@ def fresh(args):
     return json.loads(p.stdout.decode())
 
 
+def poison_chunk(args):
+    """one interpreter: for every 'first' program (accepted or rejected, of any kind) assemble it, then every probe"""
+    firsts, probes = args
+    os.environ["VERIF_SCRATCH"] = tlc.OUT
+    out = []
+    for x in firsts:
+        ev = sessionrun.run_history([x] + probes, list(range(1, len(probes) + 2)), "warm", LIBFILES)
+        for e in ev:
+            e["src"] = 100 if e["src"] == 1 else e["src"] - 1
+        out.append(ev)
+    return out
+
+
+def poison_suite(ctx, rnd, thorough):
+    """State left behind by ONE earlier program - drawn from thousands of different accepted and rejected programs, so that the failure sites
+    are as varied as the assembler's diagnostics - must not change what six probe programs assemble to (their reference: alone, fresh process)."""
+    from harness import asmgen, asmcheck
+    t0 = time.time()
+    probes = [README, [" NOP \n", " LDA #2+3\n", " LDX #$10*2\n", "K EQU 7\n", " LDB #K+1\n", " LDY #K*K\n", " SWI \n"],
+              Case(proggen.gen_program(rnd, 8, 14, faults=False)[0]).lines,
+              [" ORG $0E00\n", " INCLUDE lib.asm\n", "START LDA #1\n", " JMP DONE\n", " BRA LIBTOP\n"],
+              [" ORG $2000\n", "VERYLONGLABELNAME1 NOP \n", " LDX #VERYLONGLABELNAME1\n", " INCLUDE lib.asm\n", " JMP DONE\n", " LDA LIBTOP,PCR\n"],
+              [" ORG $0100\n", "A1 LEAX A3,PCR\n", " RMB 120\n", "A2 LDA A1,PCR\n", "A3 LBRA A1\n", " FCC /text/\n", " FDB $1234,5\n"]]
+    firsts = []
+    n = 12000 if thorough else 1200
+    bad, _ = asmgen.table(ctx.tier, "invalid")
+    base = [README] + [Case(proggen.gen_program(rnd, 4, 10)[0]).lines for _ in range(20)]
+    for k in range(n):
+        c = k % 4
+        if c == 0:
+            firsts.append(asmcheck.framed(rnd.choice(bad), "invalid").lines)                   # an ill-typed statement of the spec's table, in a frame
+        elif c == 1:
+            m = list(rnd.choice(base))
+            j = rnd.randrange(len(m))
+            m[j] = mutate_line(rnd, m[j])
+            firsts.append(m)                                                                    # a mutated program
+        elif c == 2:
+            from harness.props.c13 import SRC_ALPHABET
+            firsts.append(list(rnd.choice(base)[:rnd.randint(0, 4)]) + ["".join(rnd.choice(SRC_ALPHABET) for _ in range(rnd.randint(1, 24))) + "\n"])
+        else:
+            firsts.append([" LDA #%s\n" % rnd.choice(["TAB_LEN+1", "$12345+1", "1+", "+1", "1++2", "K+*", "'A+1", "1+%2", "A B+1", "5/0", "300", "NOSUCH", "NOSUCH+1", "$G1+1", "1+$G1", "65536+1"]),
+                           " INCLUDE %s\n" % rnd.choice(["lib.asm", "nosuch.asm"])][:rnd.choice([1, 2])])
+    chunks = [firsts[i:i + 25] for i in range(0, len(firsts), 25)]
+    with mp.Pool(16) as p:
+        solos = p.map(fresh, [(probes, [j], 0) for j in range(1, len(probes) + 1)], chunksize=1)
+        res = p.map(poison_chunk, [(c, probes) for c in chunks], chunksize=1)
+    ref = [dict(evs[0], cfg="solo-fresh") for evs in solos]
+    if any(r["out"]["outcome"] != "ok" for r in ref):
+        raise tlc.MachineryError("C17 probe program does not assemble: %r" % [r["out"]["msg"] for r in ref if r["out"]["outcome"] != "ok"][:1])
+    traces, meta = [], []
+    for ci, evss in enumerate(res):
+        for xi, ev in enumerate(evss):
+            traces.append({"id": len(traces), "events": ref + ev})
+            meta.append((ci, xi))
+    verd, st = tlc.bulk("Tr_Session", traces, nproc=6, min_chunk=20, heap="4g")
+    nv = 0
+    for t, (ci, xi) in zip(traces, meta):
+        v = verd[t["id"]]
+        first_out = t["events"][len(ref)]["out"]
+        ctx.add_class("poison|%s|%s" % (first_out["outcome"], (first_out["msg"] or "")[:18]))
+        if not v["ok"]:
+            e = t["events"][v["at"] - 1]
+            f = t["events"][v["first"] - 1] if v["first"] else e
+            diff = [k2 for k2 in e["out"] if e["out"][k2] != f["out"][k2]]
+            item = {"clause": v["why"], "class": {"cfg": "warm-after-one-program", "first_cfg": f["cfg"], "outcome": e["out"]["outcome"], "differs_in": diff}, "symptom": {}}
+            if ctx.report(item, {"kind": "session-poison", "earlier_in_this_interpreter": chunks[ci][:xi + 1][-3:], "probe": probes[e["src"] - 1] if e["src"] != 100 else chunks[ci][xi],
+                                 "got": e["out"], "alone_in_fresh_process": f["out"]}) == "violation":
+                nv += 1
+    ctx.add_suite("poison", len(traces), len(traces), time.time() - t0, {"violating_items": nv, "assemblies": sum(len(t["events"]) for t in traces)})
+
+
 def run(ctx):
     thorough = ctx.tier == "thorough"
     rnd = random.Random(ctx.seed * 715225739 + 17)
@@ -66,12 +138,24 @@ def run(ctx):
         pools.append(pool)
         jobs_w.append((pool, list(h)))
         jobs_f.append((pool, list(h), rnd.choice([0, 1, 2, 12345, "random"])))
+    # the reference output of a source: assembled ALONE in a fresh interpreter (one subprocess per source of every pool) - a history that is
+    # wrong the same way warm and in a fresh process (state leaking from an earlier program of the same history) must still disagree with it
+    distinct_pools = []
+    for pl in pools:
+        if not distinct_pools or distinct_pools[-1] != pl:
+            distinct_pools.append(pl)
+    solo_jobs = [(pl, [sidx], 0) for pl in distinct_pools for sidx in range(1, len(pl) + 1)]
     with mp.Pool(16) as p:
         ws = p.map(warm, jobs_w, chunksize=4)
         fs = p.map(fresh, jobs_f if thorough else jobs_f[::3], chunksize=2)
+        solos = p.map(fresh, solo_jobs, chunksize=1)
+    solo = {}
+    for (pl, h, _), evs in zip(solo_jobs, solos):
+        solo[(distinct_pools.index(pl), h[0])] = dict(evs[0], cfg="solo-fresh")
     fi = 0
     for k in range(len(ws)):
-        ev = list(ws[k])
+        pi = distinct_pools.index(pools[k])
+        ev = [solo[(pi, sidx)] for sidx in sorted(set(jobs_w[k][1]))] + list(ws[k])
         if thorough or k % 3 == 0:
             ev += fs[fi]
             fi += 1
@@ -80,7 +164,7 @@ def run(ctx):
     nv = 0
     for t in traces:
         v = verd[t["id"]]
-        outs = "".join(e["out"]["outcome"][0] for e in t["events"][:4])
+        outs = "".join(e["out"]["outcome"][0] for e in t["events"] if e["cfg"] == "warm")
         ctx.add_class("session|%s|%s" % (outs, len(t["events"])))
         if not v["ok"]:
             e = t["events"][v["at"] - 1]
@@ -90,11 +174,12 @@ def run(ctx):
             if ctx.report(item, {"kind": "session", "hist": [x["src"] for x in t["events"]], "at": v["at"], "first": v["first"], "pool": pools[t["id"]], "got": e["out"], "before": f["out"]}) == "violation":
                 nv += 1
     ctx.add_suite("histories", len(traces), len(traces), time.time() - t0, {"violating_items": nv, "assemblies": sum(len(t["events"]) for t in traces)})
+    poison_suite(ctx, rnd, thorough)
     ctx.sample({"hist": [e["src"] for e in traces[0]["events"]], "cfgs": sorted(set(e["cfg"] for e in traces[0]["events"])), "outcomes": [e["out"]["outcome"] for e in traces[0]["events"]]})
     ctx.cov["rule"] = ("every order of <= 4 assemblies over a pool of 8 sources (README example, operand-less program, random valid program, translation error, duplicate label, "
-                       "mutated program, two programs that INCLUDE the same file at different positions, one with a label longer than the listing column; pools re-drawn per seed), TLC-exported; each history is run warm in one interpreter and again in a fresh process under PYTHONHASHSEED "
+                       "mutated program, two programs that INCLUDE the same file at different positions, one with a label longer than the listing column; pools re-drawn per seed), TLC-exported; every source is assembled alone in a fresh interpreter (the reference), each history is run warm in one interpreter and again in a fresh process under PYTHONHASHSEED "
                        "0/1/2/12345/random; every event carries the full image, listing and symbol table; Tr_Session demands equality with the first output seen for that source, "
-                       "and that the input list is unchanged. distinct_nontrivial = (outcome pattern, events) classes")
+                       "and that the input list is unchanged; plus the poison suite: one earlier program out of thousands (ill-typed statements of the spec's table, mutated programs, random lines, malformed expression terms) followed by six probe programs in the same interpreter. distinct_nontrivial = (outcome pattern, events) classes")
 
 
 def replay(ctx, rp):
